@@ -395,6 +395,28 @@ impl Property for C10 {
     fn self_check(&self) -> Result<(), String> {
         crate::realcorpus::self_check(6, 20)
     }
+    fn probes(&self) -> Vec<Probe> {
+        vec![Probe {
+            signature: "compact:non-path-inner-panics",
+            what: "struct Probe { #[codec(compact)] u: (), cu: Compact<()> }",
+            run: Box::new(|| {
+                use crate::program::*;
+                let fields = Fields::Named(vec![
+                    FieldDef { name: Some("u".into()), ty: Ty::Tuple(vec![]), compact_attr: true, docs: vec![] },
+                    FieldDef { name: Some("cu".into()), ty: Ty::Compact(Box::new(Ty::Tuple(vec![]))), compact_attr: false, docs: vec![] },
+                ]);
+                let prog = Program {
+                    name_style: 0,
+                    defs: vec![Def { path: vec!["krate".into(), "Probe".into()], params: vec![], docs: vec![], body: Body::Struct(fields), config_inner: None }],
+                    roots: vec![Ty::Def(0, vec![])],
+                };
+                let low = crate::lower::lower(&prog);
+                let spec = SettingsSpec::default();
+                let text = prog.to_text();
+                fault_free(&low.registry, &spec, &|| json!({"program": text})).map_err(|f| f.sig("compact:non-path-inner-panics"))
+            }),
+        }]
+    }
     fn strata(&self, tier: Tier) -> Vec<Stratum> {
         vec![
             Stratum::random("fault_free", tier.pick(40_000, 1_000_000), tier.pick(384, 768)),
@@ -409,7 +431,8 @@ impl Property for C10 {
         let mut t = Tape::new(bytes);
         match stratum {
             "fault_free" => {
-                let opts = GenOpts::full();
+                let mut opts = GenOpts::full();
+                opts.compact_unit = true;
                 let Some(case) = make_case(&mut t, &opts) else {
                     stats.count("discard_too_large", 1);
                     return Ok(());
